@@ -20,14 +20,18 @@ def plan(tier, seed):
         heavy = sp.name in ('NormalizeCurveZScore', 'CvtToFuzzyCurveZScore')
         for var in D.default_variants(sp, 'quick'):
             if tier == 'quick':
-                combos = [((2,), 'm', 2 if nary else 1, 'f')]
+                # statistic-driven commands need 3 cells: two distinct valid values plus one that can be missing
+                n_ = 3 if (sp.name in D.STAT_CMDS or sp.name == 'CvtToFuzzy') and not heavy else 2
+                combos = [((n_,), 'm', 2 if nary else 1, 'f')]
                 if nary:
                     combos.append(((2,), 'mn', 2, 'f'))
             else:
                 combos = [((3,), 'm', 2 if nary else 1, 'f'), ((2,), 'm', 3 if nary else 1, 'f'), ((2,), 'md', 2 if nary else 1, 'f'),
                           ((2,), 'm', 2 if nary else 1, 'i'), ((2, 2), 'm', 2 if nary else 1, 'f')]
                 if heavy:
-                    combos = [((2,), 'm', 1, 'f'), ((2,), 'm', 1, 'i')]
+                    combos = [((3,), 'm', 1, 'f'), ((2,), 'm', 1, 'i')]
+                if any(p.name == 'IgnoreZeros' for p in sp.params):
+                    combos = [((4,), 'm', 1, 'f'), ((3,), 'm', 1, 'i')]
             for shape, reps, k, kind in combos:
                 if not nary and len(reps) > 1 and sum(1 for p in sp.params if p.kind == 'arr') < 2:
                     reps = reps[0]
